@@ -68,11 +68,12 @@ ENS_MONO
 /* an integer literal that does not fit the word is reported (proved for the function itself: c_dispatchValue_top) */
 __CPROVER_ensures((c) == 0 || CN(c)->t != NT_NUMBER || CN(c)->tok._id != g_num_id || g_num_val < INT_MAX || GNERR > OLD(GNERR)) /*@C20,C04*/;
 
+/* (proved for the function itself: c_dispatchVoid_top in contracts/gen_drv.c) */
 void c_dispatchVoid(void *p, void *c)
 REQ_GS(p)
 REQ_GC
 ASSIGNS_GS_CALLEE
-ENS_MONO;
+ENS_MONO_V;
 
 /* the same, as the BODY of a LOOP / WHILE: the call records what the construct had set up when its body begins (value of the
  * construct's first label, code size) in ghosts, so that the construct's contract can speak about that intermediate state */
@@ -85,7 +86,7 @@ __CPROVER_assigns(g_gs->out.code._n, __CPROVER_object_whole(GCODE), g_gs->labels
                   g_gs->backpatching_todo._n, __CPROVER_object_whole(BPS), g_gs->errors._n, __CPROVER_object_whole(g_gs->errors._d),
                   g_top->register_state._n, __CPROVER_object_whole(REGS), g_top->marks._n, __CPROVER_object_whole(MARKS), g_gs->loops,
                   g_rec_calls, g_rec_l2, g_rec_gnc)
-ENS_MONO
+ENS_MONO_V
 __CPROVER_ensures(g_rec_calls == OLD(g_rec_calls) + 1 && g_rec_l2 == OLD(LABS[NLAB - 2]) && g_rec_gnc == OLD(GNC));
 
 /* ------------------------------------------------------------------ dispatchLoop: LOOP x DO body END
@@ -348,7 +349,13 @@ unsigned long g_pop_gnc;
 /* c_dispatchArgs: parameter allocation emits no code */
 void c_dispatchArgs_prog(void *p, void *c) REQ_GSP(p) ASSIGNS_GSP ENS_MONO_P
 __CPROVER_ensures(GNC == OLD(GNC) && NLAB == OLD(NLAB) && NBP == OLD(NBP));
-void c_dispatchVoid_prog(void *p, void *c) REQ_GSP(p) ASSIGNS_GSP ENS_MONO_P;
+void c_dispatchVoid_prog(void *p, void *c) REQ_GSP(p) ASSIGNS_GSP
+  __CPROVER_ensures(GNC >= OLD(GNC) && GNC <= g_gs->out.code._cap && NLAB >= OLD(NLAB) && NLAB <= g_gs->labels._cap && NBP >= OLD(NBP) &&
+                    NBP <= g_gs->backpatching_todo._cap && GNERR >= OLD(GNERR) && GNERR <= g_gs->errors._cap && NSYM == OLD(NSYM))
+  /* dispatchVoid may take back a stop site that ends the code (c_dispatchVoid_top) */
+  __CPROVER_ensures(g_c >= OLD(GNC) || (GOP(g_c) == OLD(GOP(g_c)) && GPAR(g_c, 0) == OLD(GPAR(g_c, 0)) && GPAR(g_c, 1) == OLD(GPAR(g_c, 1)) &&
+                                        GPAR(g_c, 2) == OLD(GPAR(g_c, 2))) || (g_c + 1 == OLD(GNC) && OLD(GOP(g_c)) == OP_POTENTIAL_BREAK))
+  __CPROVER_ensures(g_bp >= OLD(NBP) || BPS[g_bp] == OLD(BPS[g_bp]));
 int c_fetchVariableRegister_prog(void *p, long name_id) REQ_GSP(p) ASSIGNS_GSP ENS_MONO_P
 __CPROVER_ensures(GNC == OLD(GNC) && NLAB == OLD(NLAB) && NBP == OLD(NBP))
 __CPROVER_ensures(__CPROVER_return_value >= 0 && (unsigned long)__CPROVER_return_value < DT.register_state._n);
